@@ -4,5 +4,6 @@ CONSTANTS
   PotentialPassesImag = FALSE
   EmitJson = FALSE
 INVARIANT RoutePreservesKernel
+INVARIANT RouteForwardsArguments
 INVARIANT Emit
 CHECK_DEADLOCK FALSE
